@@ -68,7 +68,7 @@ def run_items(ctx, exe, key, items, findings, label):
     """Drive one daemon through the items; restart after a crash; LSan/ASan report at the end."""
     d = rig.Daemon(ctx, exe, tag=label, key=key, nthreads=2)
     if not d.start():
-        findings.append({"kind": "daemon does not start", "class": label, "stderr": (d.p.stderr.read().decode(errors='replace') if d.p else "")[-500:]})
+        findings.append({"kind": "daemon does not start", "class": label, "stderr": ""})
         return
     sent = 0
     for i, (cls, raw) in enumerate(items):
@@ -268,13 +268,10 @@ def run(ctx):
                        "malformed interiors (every inner truncation, addr_len, data_len, zip header/body faults), stalled "
                        "clients; canary encode/decode after every batch; sanitizer report read at shutdown. "
                        "non-trivial = distinct (class, bytes)")
+    ok = vlib.prove(ctx, ["Properties_C08.v"], facts=["cred", "base64", "msg"])
+    ctx.log("proofs:", "ok" if ok else "BROKEN: " + getattr(ctx, "broken_obligation", "?"))
     live_phase(ctx)
-    # proofs are attached by the credential model (see c08 proofs section once CredModel exists)
-    if os.path.exists(os.path.join(vlib.COQ, "Properties_C08.v")):
-        ok = vlib.prove(ctx, ["Properties_C08.v"])
-        if not ok and not ctx.violations:
-            ctx.violation("proof obligation no longer checks: %s" % getattr(ctx, "broken_obligation", "?"),
-                          {"obligation": getattr(ctx, "broken_obligation", "?"), "log": ctx.proof_log[-3000:]},
-                          found_input=False)
-    else:
-        ctx.level = "fault_enumeration"
+    if not ok and not ctx.violations:
+        ctx.violation("proof obligation no longer checks: %s" % getattr(ctx, "broken_obligation", "?"),
+                      {"obligation": getattr(ctx, "broken_obligation", "?"), "log": ctx.proof_log[-3000:]},
+                      found_input=False)
